@@ -47,3 +47,36 @@ for hs, tiers, to in [(8, ("quick", "thorough"), 240), (12, ("quick", "thorough"
 # payload-side pieces decided elsewhere that belong to "decode as specified"
 OBLIGATIONS += reuse("C15", r"delta_reinit|delta_roundtrip|delta_reference")    # delta decoder state does not leak between Blocks
 OBLIGATIONS += reuse("C04", r"dict_repeat_safety|dict_wrap_step|dict_put_get_step|lzma_decoder_reset")   # LZ dictionary primitives, state reset
+# LZMA2 chunk layer under the real LZ decoder driver, vs the chunk grammar (also serves C04/C05/C06)
+L2_UNITS = [S + "common/common.c", S + "lzma/lzma_decoder.c"]
+OBLIGATIONS.append(Obligation(
+    name="lzma2_chunk_layer", src="lzma2dec.c", func="harness_lzma2_chunks", units=L2_UNITS,
+    defs=["VLOOP_MEM", "VLOOP_MEM_ONECHECK", "STUB_BUFCPY"], hdefs=["lzma_bufcpy=vstub_bufcpy"],
+    qdefs=["NIN=8", "CALLS=1"], tdefs=["NIN=10", "CALLS=1"],
+    qunwind=11, tunwind=13, timeout_q=700, timeout_t=3600, mem_gb=12,
+    unwindset=[("decode_buffer", "", (3, 4))],
+    fp_restrict=["decode_buffer.function_pointer_call.1/lzma2_decode",
+                 "lzma2_decode.function_pointer_call.1/stub_reset",
+                 "lzma2_decode.function_pointer_call.2/stub_set_uncompressed",
+                 "lzma2_decode.function_pointer_call.3/stub_reset",
+                 "lzma2_decode.function_pointer_call.4/stub_code"],
+    functions=["lzma2_decode", "decode_buffer", "lz_decoder_reset", "dict_write", "dict_reset",
+               "lzma_lzma_lclppb_decode"],
+    stubs=["LZMA1 payload decoder (coder->lzma.code/reset/set_uncompressed): chunk i needs exactly want[i] "
+           "(arbitrary, 1..NIN) input bytes, then reports end of chunk or, arbitrarily, a data error; it "
+           "writes nothing to the dictionary; what it is told is compared on line with the parser's log",
+           "lzma_bufcpy (called by dict_write): same position arithmetic, but instead of moving bytes into "
+           "the 600-byte dictionary it records which input index one arbitrary (universally quantified) "
+           "output offset was copied from; the real lzma_bufcpy is exercised by C15's streaming obligations, "
+           "the dictionary-to-output copy by decode_buffer is real but its bytes are not compared here"],
+    desc="LZMA2 chunk layer (lzma2_decode under the real decode_buffer, from the state lzma2_decoder_init sets, "
+         "with and without preset dictionary): for EVERY input and every slicing of input and output space the "
+         "final status is STREAM_END / DATA_ERROR / OK(incomplete) exactly as an independent one-pass "
+         "parser of the chunk grammar says (control byte classes, mandatory first dictionary reset, "
+         "mandatory properties after a dictionary reset, lc+lp<=4, chunk compressed size must match what "
+         "the LZMA data used), input consumed and the source of every output byte (uncompressed chunks) "
+         "equal the parser's, the LZMA decoder is told the same state resets, lc/lp/pb and chunk sizes in "
+         "the same order, dictionary resets happen where the control bytes say; no out-of-bounds access",
+    bounds_q="all inputs of <= 8 bytes; one symbolic input/output cut point + a final call with everything; 16-byte dictionary (no wrap: see dict_wrap_step)",
+    bounds_t="all inputs of <= 10 bytes; one symbolic cut point + final call",
+    outside="the LZMA1 payload decoder itself (lzma_decode: symbolic execution does not finish, see DESIGN.md); chunk streams longer than the bound; more than two calls"))
